@@ -223,6 +223,12 @@ def replay_setitem(ob):
             trials.append((params(), mk(), field))
     elif key in alt:
         trials.append((alt[key][0], alt[key][1], key))
+        # small but real changes (settings are in metres / dimensionless; nothing is "close enough to be the same")
+        small = {"weight_cp": [(5e-7, 5.05e-7), (1e-8, 0)], "gcf_k": [(1.0, 1.000001)],
+                 "range_x": [([0, 0], [-1e-8, 1e-8]), ([-1.5e-6, 0], [-1.5e-6, 8e-9])],
+                 "optimal_fit_num_samples": [(100000, 100001)]}
+        for o_, n_ in small.get(key, []):
+            trials.append((o_, n_, key))
     for old, new, what in trials:
         fp = FitProperties()
         for k, v in FP_DEFAULT.items():
